@@ -81,6 +81,8 @@ def provider(rates, calls):
             calls.append(("bcx", name(r, rq)))
             out = []
             for m, v in enumerate(rates["bcx"], 1):
+                if m == rates.get("bcx_zero", 0):
+                    v = 0
                 class C(R.BeamCXPEC):
                     def __init__(self, m, v):
                         super().__init__(m)
